@@ -43,7 +43,20 @@ def run(ck, tier):
     ck.assumptions += ["integer overflow is ignored (a cursor cannot exceed isize::MAX elements)", "std slice/iterator/Option methods behave as documented (models listed in DESIGN.md 2.4)", "no unsafe code in the analysed workspace crates"]
     p = facts.load()
     _pattern(ck, p)
-    for sub in (_consumers, _lexer, _loops, _spans):
+    if tier == "thorough":
+        # the build without the `concurrent` feature (what harper-cli alone gets): Pattern has an extra
+        # blanket impl for Rc<P>, and every body is type-checked under the other cfg
+        from .c05 import _Sub
+        pn = facts.load_nc()
+        from .. import prov as _prov
+        saved = _prov.PROGRAM
+        _prov.PROGRAM = pn
+        try:
+            _pattern(_Sub(ck, "R-C01-pattern", "no-concurrent:"), pn)
+        finally:
+            _prov.PROGRAM = saved
+        _census(ck, p)
+    for sub in (_consumers, _lexer, _loops, _spans, _precond):
         try:
             sub(ck, p)
         except Exception as e:      # a rule that cannot run must not vouch
@@ -344,6 +357,43 @@ def _spans(ck, p):
     ck.extra["span_sites_with_affine_operands"] = affine
 
 
+def _census(ck, p):
+    """thorough: O4 census — every bounds check / slice cut / subtraction in the parser-side bodies,
+    analysed with free slice parameters.  Internal helpers may rely on their callers, so the census
+    is informational: it is written to the evidence (proved / not proved counts), never an alarm."""
+    tot = {"proved": 0, "not_proved": 0}
+    per = {}
+    for f in sorted(p.fns.values(), key=lambda f: f.name):
+        if not SCOPE.match(f.name) or f.get("kind") in ("Closure", "Promoted") or len(f.blocks) > 400:
+            continue
+        seen = {}
+
+        def assert_hook(cx, fn, bb, t, st, want, other, reports):
+            if t.get("msg") not in ("bounds", "overflow") or str(t.get("op", "")).startswith(("Add", "Mul")):
+                return
+            ok = want is not None and all(entails(st.facts, c) for c in want)
+            k = (fn.name, bb)
+            seen[k] = seen.get(k, True) and ok
+        cx = Ctx(p, {"call": span_hook(True), "assert": assert_hook})
+        try:
+            args, fs = generic_args(cx, f)
+            sub = analyze(cx, f, args, fs)
+        except Exception:
+            continue
+        for r in sub.reports:
+            if r["kind"].startswith("O4"):
+                k = (r["fn"], r["bb"])
+                seen[k] = seen.get(k, True) and bool(r["ok"])
+        a = sum(1 for v in seen.values() if v)
+        b = sum(1 for v in seen.values() if not v)
+        if a or b:
+            per[keyname(p, f)] = [a, b]
+        tot["proved"] += a
+        tot["not_proved"] += b
+    ck.extra["o4_census"] = {"totals": tot, "functions": len(per), "per_function": dict(sorted(per.items(), key=lambda kv: -kv[1][1])[:40])}
+    ck.notes.append("O4 census (thorough, informational): %d in-bounds / no-underflow obligations proved, %d not proved, over %d parser-side functions" % (tot["proved"], tot["not_proved"], len(per)))
+
+
 def _loops(ck, p):
     """O5: a `slice.get(cursor)` inside a loop whose cursor only grows: the None arm must leave the loop"""
     rule = "R-C01-loops"
@@ -456,3 +506,104 @@ def _none_edge(f, t):
             continue
         return None
     return None
+
+
+# stated beliefs: a helper that asserts a bound on its arguments' lengths ------------------------
+EDIT = "harper_core::edit_distance::edit_distance_min_alloc"
+
+
+def _precond(ck, p):
+    """R-C01-precond: edit_distance_min_alloc stores lengths and distances in u8 rows; it states the belief
+    `len <= 255` only as a debug assertion.  Either the function handles longer inputs itself on the
+    release path (every usize -> u8 narrowing of a length is dominated by a bound), or every call site
+    must establish the bound."""
+    rule = "R-C01-precond"
+    ck.rule(rule, "stated belief vs. callers: every usize->u8 narrowing of a slice length in edit_distance_min_alloc is bounded on the release path (debug assertions ignored), or each call site is dominated by a comparison that bounds the passed lengths")
+    byk = fns_by_key(p)
+    fs = byk.get(EDIT)
+    if not ck.anchor(rule, "edit_distance::edit_distance_min_alloc", fs):
+        return
+    f = fs[0]
+    ck.saw(f)
+    import os
+    from ..facts import REPO
+    src_lines = {}
+
+    def line_text(fn, ln):
+        path = os.path.join(REPO, fn.file())
+        if path not in src_lines:
+            try:
+                src_lines[path] = open(path).read().splitlines()
+            except OSError:
+                src_lines[path] = []
+        L = src_lines[path]
+        return L[ln - 1] if 0 < ln <= len(L) else ""
+    casts = []
+
+    def stmt_post(cx, fn, bb, s, st, v):
+        if fn is not f or s["k"] != "assign":
+            return None
+        rv = s["rv"]
+        # `cfg!(debug_assertions)` is a constant of the build profile, not a guard of the shipped code
+        if rv["k"] == "use" and "k" in rv["op"] and rv["op"]["k"].get("txt") in ("true", "false") and "debug_assertions" in line_text(fn, s.get("cl") or s["ln"]):
+            from ..prover import V_bool
+            return V_bool([], [])
+        if rv["k"] == "cast" and rv["kind"] == "int" and fn.ty(rv["from"])["s"] == "usize" and fn.ty(rv["to"])["s"] == "u8":
+            from ..prover import op_val
+            ov = op_val(cx, st, rv["op"])
+            if ov[0] == "int":
+                goal = Lin.konst(255).sub(ov[1])
+                ok = entails(st.facts, goal)
+                m = None if ok else counter_model(st.facts, goal)
+                casts.append({"bb": bb, "ln": s["ln"], "ok": ok, "val": cx.show(ov[1]), "model": cx.show_model(m) if m else None, "opaque": cx.relevant_opaque(st.facts, goal)})
+            else:
+                casts.append({"bb": bb, "ln": s["ln"], "ok": None, "val": "?", "model": None, "opaque": True})
+        return None
+    cx = Ctx(p, {"stmt_post": stmt_post})
+    args, fsx = generic_args(cx, f)
+    analyze(cx, f, args, fsx)
+    byb = {}
+    for c in casts:
+        old = byb.get(c["bb"])
+        if old is None or (old["ok"] is True and c["ok"] is not True):
+            byb[c["bb"]] = c
+    ck.floor(rule, "usize->u8 narrowings of lengths in edit_distance_min_alloc", len(byb), 1)
+    unbounded = [c for c in byb.values() if c["ok"] is not True]
+    if not unbounded:
+        ck.proved(rule, "edit_distance_min_alloc:self-guard", f.span, "every usize->u8 narrowing (%d) is dominated by a bound on the release path: over-long inputs are handled inside the function" % len(byb))
+        return
+    witness = [c for c in unbounded if c["ok"] is False and not c["opaque"] and c["model"]]
+    # call sites
+    sites = []
+    for g in p.fns.values():
+        for bi, t in g.calls():
+            if (t["f"].get("inst") or "") == EDIT:
+                sites.append((g, bi, t))
+    ck.floor(rule, "call sites of edit_distance_min_alloc", len(sites), 2)
+    for g, bi, t in sites:
+        ck.saw(g)
+        cfg = Cfg(g)
+        guarded = False
+        for b2, blk in enumerate(g.blocks):
+            for s2 in blk["s"]:
+                if s2["k"] == "assign" and s2["rv"]["k"] == "bin" and s2["rv"]["op"] in ("Le", "Lt", "Gt", "Ge"):
+                    ks = [x.get("k", {}).get("int") for x in (s2["rv"]["a"], s2["rv"]["b"])]
+                    if any(k is not None and int(k) <= 256 for k in ks) and cfg.dominates(b2, bi) and _len_derived(g, s2["rv"]):
+                        guarded = True
+        key = "edit_distance_min_alloc<-%s" % keyname(p, g)
+        if guarded:
+            ck.undecided(rule, key, g.loc(t["ln"]), "a length comparison dominates the call; whether it bounds both arguments by 255 is not decided")
+        elif witness:
+            ck.refuted(rule, key, g.loc(t["ln"]), "edit_distance_min_alloc narrows %s to u8 (it states `len <= 255` only as a debug assertion) and this caller passes slices of unconstrained length: for %s the u8 rows wrap and the index/arithmetic checks in the loop panic" % (witness[0]["val"], witness[0]["model"]))
+        else:
+            ck.undecided(rule, key, g.loc(t["ln"]), "narrowing not proved bounded; no free counter-assignment")
+
+
+def _len_derived(g, rv):
+    from ..prov import Prov, flatten
+    pv = Prov(g)
+    for side in ("a", "b"):
+        for o in flatten(pv.trace_operand(rv[side])):
+            if o[0] == "call" and last(norm(o[3] or o[2] or "")) == "len":
+                return True
+    return False
